@@ -4,10 +4,15 @@
 From Coq Require Import ZArith List Bool Lia Sorting.Sorted Sorting.Permutation.
 Import ListNotations.
 Require Import Verif.lib.PyLite Verif.gen.LogBufGen Verif.lib.LogBuf Verif.lib.LogBufProofs.
+Require Import Verif.gen.LogJsonGen Verif.lib.LogJson Verif.lib.LogJsonProofs Verif.lib.LogFileProofs Verif.lib.LogOrderProofs.
+Require Import Verif.lib.LogFmt Verif.lib.LogFmtProofs Verif.lib.LogReent Verif.lib.LogReentProofs.
 Local Open Scope Z_scope.
 
 (* "Emitting a log event never raises ..." : every msg() call -- also one whose _msg raises (uncomparable level,
-   unhashable facility, failing str(), negative size limit, failing incident reporter) -- returns a number *)
+   unhashable facility, failing str(), negative size limit, failing incident reporter) -- returns a number.
+   (By the form of msg(): the model's `step` is total because msg's two handlers -- translated fact msg_catch_all, matched
+   literally: `except Exception` around _msg, bare `except: pass` around the replacement event -- leave no path on which an
+   exception escapes; what _msg itself can raise on hostile values is the oracle's part.) *)
 Theorem C18_msg_total : forall c s o, is_call o = true -> exists n, snd (step c s o) = Some n.
 Proof. exact msg_total. Qed.
 Print Assumptions C18_msg_total.
@@ -80,7 +85,10 @@ Print Assumptions C18_subscriber_bounded_any_limits.
    integers, deep nesting ...) and whatever happened before -- add_event does not raise and
      NonTrailing: the published file is  trigger :: buffered events sorted by number,
      Trailing:    a timed reporter holds exactly those lines (published by C18_incident_trailing below).
-   FULL STRENGTH; rests on the translated fact serialize_total = true (three-stage fallback in flogfile). *)
+   FULL STRENGTH; rests on the translated fact serialize_total = true (three-stage fallback in flogfile): with it
+   `enc e` is constantly true, so the quantification over e_ok is free.  That flag is no longer only syntactic: the chain
+   it stands for is modelled in lib/LogJson.v and C18_serialize_never_raises (below) proves that it always yields a line;
+   C18_incident_recorded_when_encodable is the statement that does not use the flag. *)
 Theorem C18_one_bad_event_harmless : forall c sz b i e,
   c_fault c = NoFault -> c_qual c = true -> incident_level <= e_lvl e -> i_rep i = None -> i_zombie i = false ->
   0 <= limit_of sz (e_fac e) (e_lvl e) ->
@@ -156,18 +164,20 @@ Proof.
 Qed.
 Print Assumptions C18_subscriber_bounded_after_catchup.
 
-(* "Every event that is written to a log or incident file can be read back": every writer compresses according to the
-   name get_events will see.  flogtool filter -- into a new file or in place (written as NAME.tmp, then renamed), plain
-   or .bz2, any --above / --strip-facility selection -- reads back exactly the records it kept; LogFileObserver files
-   read back (plain and .bz2).  Rests on the translated facts filter_codec_from / logfile_codec_from = FinalName. *)
-Theorem C18_filter_reads_back : forall above strip final_bz2 inplace recs,
+(* "Every event that is written to a log or incident file can be read back", the COMPRESSION layer only (the records are
+   opaque here; what a record reads back as is C18_event_reads_back / C18_file_reads_back / C18_logfile_events_read_back /
+   C18_incident_file_reads_back below): every writer compresses according to the name get_events will see.  flogtool
+   filter -- into a new file or in place (written as NAME.tmp, then renamed), plain or .bz2, any --above /
+   --strip-facility selection -- yields a file get_events can open, holding exactly the records it kept; the same for
+   LogFileObserver files.  Rests on the translated facts filter_codec_from / logfile_codec_from = FinalName. *)
+Theorem C18_filter_codec_matches : forall above strip final_bz2 inplace recs,
   filter_run above strip final_bz2 inplace recs = Some (filter (filter_keep above strip) recs).
 Proof. exact filter_reads_back. Qed.
-Print Assumptions C18_filter_reads_back.
+Print Assumptions C18_filter_codec_matches.
 
-Theorem C18_logfile_reads_back : forall name_bz2 recs, logfile_written name_bz2 recs = Some recs.
+Theorem C18_logfile_codec_matches : forall name_bz2 recs, logfile_written name_bz2 recs = Some recs.
 Proof. exact logfile_reads_back. Qed.
-Print Assumptions C18_logfile_reads_back.
+Print Assumptions C18_logfile_codec_matches.
 
 (* "... one unrepresentable event never prevents other events or later incidents from being recorded", at the grain of
    single reactor iterations (lib/LogBuf.v `iterate`: several calls before the eventual queue runs, an observer calling
@@ -208,3 +218,153 @@ Theorem C18_absorbed_trigger_subject_to_limits :
                i_recorded (s_inc (f_s f)) = 1 /\ in_some_file (s_inc (f_s f)) 1 = false).
 Proof. exact absorbed_trigger_subject_to_limits. Qed.
 Print Assumptions C18_absorbed_trigger_subject_to_limits.
+
+(* ===================================================================== round 5: the JSON layer inside the model *)
+(* lib/LogJson.v models json.dumps + ExtendedEncoder, _make_jsonable, _last_resort and the try / except chain of
+   serialize_to_json_utf8 over ALL Python values of its universe (None, bool, int of any size, float, text, opaque objects
+   whose repr works / raises / raises unreprably, Failures, lists, tuples, dicts with keys of any kind, containers that
+   contain themselves, nesting of any depth), parameterised by the TRANSLATED facts of gen/LogJsonGen.v (which exception
+   classes each `except` selects, container / key / scalar type lists, the integer bound, the depth) and by the
+   interpreter's budgets L (recursion depth of the C encoder and of Python frames, largest printable integer). *)
+
+(* "... one unrepresentable event never prevents other events ... from being recorded": writing a line NEVER raises,
+   whatever the object, for every interpreter whose budgets admit what _last_resort leaves (lims_ok; cpython_ok) *)
+Theorem C18_serialize_never_raises : forall L o, lims_ok L -> exists j, serialize L o = Ok j.
+Proof. exact serialize_total. Qed.
+Print Assumptions C18_serialize_never_raises.
+
+Theorem C18_budgets_of_cpython_admitted : lims_ok cpython.
+Proof. exact cpython_ok. Qed.
+Print Assumptions C18_budgets_of_cpython_admitted.
+
+(* "Every event that is written to a log or incident file can be read back with the same number, level and message":
+   whichever of the three stages produced the line (first try, sanitised copy, last-resort record), the "d" member of
+   what json.loads returns carries the event's num, level and message -- for every event dict with text keys (kwargs),
+   an integer number and level below 2^64 (small_int; Example ex_huge_num_lost: the bound is needed) and a text message,
+   whatever else it holds *)
+Theorem C18_event_reads_back : forall L from rx e n l m j,
+  is_event e n l m -> serialize L (wrap from rx e) = Ok j ->
+  exists d, event_of_line j = Some d /\ view3 d = fields n l m.
+Proof. exact event_fields_survive. Qed.
+Print Assumptions C18_event_reads_back.
+
+(* the trigger inside the header of an incident file ({"header": {"type", "trigger": EVENT, ..}}: one level deeper) *)
+Theorem C18_trigger_reads_back : forall L ty more e n l m j,
+  is_event e n l m -> serialize L (header ty e more) = Ok j ->
+  exists d, trigger_of_header j = Some d /\ view3 d = fields n l m.
+Proof. exact trigger_fields_survive. Qed.
+Print Assumptions C18_trigger_reads_back.
+
+(* a whole file written with serialize_wrapper: no write raises and get_events yields every event, in order *)
+Theorem C18_file_reads_back : forall L from rx (evs : list (pv * (Z * Z * Z))), lims_ok L ->
+  Forall (fun x => is_event (fst x) (fst (fst (snd x))) (snd (fst (snd x))) (snd (snd x))) evs ->
+  exists js, write_lines L from rx (map fst evs) = Some js /\
+             map line_view js = map (fun x => Some (fields (fst (fst (snd x))) (snd (fst (snd x))) (snd (snd x)))) evs.
+Proof. exact file_reads_back. Qed.
+Print Assumptions C18_file_reads_back.
+
+(* the layers composed: a LogFileObserver file (plain or .bz2) of the logger model's events reads back completely ... *)
+Theorem C18_logfile_events_read_back : forall L (payload : event -> pv) (msg : event -> Z) from rx name_bz2 (evs : list event),
+  lims_ok L -> (forall x, In x evs -> is_event (payload x) (e_num x) (e_lvl x) (msg x)) ->
+  exists js, write_lines L from rx (map payload evs) = Some js /\
+             read_back name_bz2 (write_codec logfile_codec_from name_bz2 false) js = Some js /\
+             map line_view js = map (ev_fields msg) evs.
+Proof. exact logfile_events_read_back. Qed.
+Print Assumptions C18_logfile_events_read_back.
+
+(* ... and "an incident file contains its triggering event and everything that was buffered", down to what a reader gets:
+   the file the logger model publishes for a trigger is  trigger :: lines, the trigger is among the lines, the header
+   line reads back the trigger's number / level / message and every buffered event's line reads back its own *)
+Theorem C18_incident_file_reads_back : forall L (payload : event -> pv) (msg : event -> Z) from rx ty c sz b i e, lims_ok L ->
+  (forall x, In x (all_buffered (x_bufs (add_event c sz b i e))) -> is_event (payload x) (e_num x) (e_lvl x) (msg x)) ->
+  c_fault c = NoFault -> c_qual c = true -> incident_level <= e_lvl e -> i_rep i = None -> i_zombie i = false ->
+  1 <= limit_of sz (e_fac e) (e_lvl e) -> c_trailing c = false ->
+  let a := add_event c sz b i e in
+  exists lines,
+    i_files (x_inc a) = i_files i ++ [e :: lines] /\ In e lines /\
+    (exists jh d, serialize L (header ty (payload e) []) = Ok jh /\ trigger_of_header jh = Some d /\
+                  view3 d = fields (e_num e) (e_lvl e) (msg e)) /\
+    (exists js, write_lines L from rx (map payload lines) = Some js /\ map line_view js = map (ev_fields msg) lines).
+Proof. exact incident_file_reads_back. Qed.
+Print Assumptions C18_incident_file_reads_back.
+
+(* ===================================================================== round 5: subscribers, end to end *)
+(* "... with a bounded number in flight": the remote calls that are neither acknowledged nor failed (q_outstanding)
+   never exceed the counter, which never exceeds MAX_IN_FLIGHT *)
+Theorem C18_subscriber_window : forall ops,
+  let s := sub_run MAX_QUEUE_SIZE MAX_IN_FLIGHT ops in 0 <= q_outstanding s <= q_inflight s /\ q_inflight s <= MAX_IN_FLIGHT.
+Proof. intros ops. apply subscriber_window; unfold MAX_QUEUE_SIZE, MAX_IN_FLIGHT; discriminate. Qed.
+Print Assumptions C18_subscriber_window.
+
+(* "subscribers see an order-preserving subsequence": logger and Subscription composed.  After ANY history `pre` a
+   subscriber arrives (with or without catch-up); during ANY further history `ops` the logger hands Subscription.send
+   exactly the events that reach the immediate observers (run_sends: thresholds, failing _msg and its internal-error
+   replacement included), interleaved in ANY way with queue turns, acknowledgements and failures.  Then what the
+   subscriber has been given -- catch-up batch, then delivered, then still queued -- is in event-number order, the
+   catch-up part (numbers <= the counter at subscription) entirely before the live part (numbers above it), the live part
+   a subsequence of what was emitted, and the catch-up batch everything that was buffered.
+   (auto_only: calls that pass num= explicitly are excluded -- the logger does not order foreign numbers.) *)
+Theorem C18_subscriber_sees_ordered : forall c pre ops sops catch_up maxq maxfl,
+  0 <= maxq -> 0 <= maxfl -> Forall auto_only pre -> Forall auto_only ops ->
+  let s0 := fst (run c init pre) in
+  sends_of sops = map e_num (run_sends c s0 ops) ->
+  let q0 := fst (sub_subscribe catch_up (s_bufs s0)) in
+  let direct := snd (sub_subscribe catch_up (s_bufs s0)) in
+  let q := fold_left (sub_step maxq maxfl) sops q0 in
+  StronglySorted Z.le (map e_num direct ++ q_delivered q ++ q_queue q) /\
+  Forall (fun n => n <= s_seq s0) (map e_num direct) /\
+  Forall (fun n => s_seq s0 < n) (q_delivered q ++ q_queue q) /\
+  subseq (q_delivered q ++ q_queue q) (sends_of sops) /\
+  (catch_up = true -> Permutation direct (all_buffered (s_bufs s0))).
+Proof. exact subscriber_sees_ordered. Qed.
+Print Assumptions C18_subscriber_sees_ordered.
+
+(* what immediate observers are handed over any history of logger-numbered calls: numbers never decrease (an event and
+   the internal-error event that replaces it share a number) and all lie above the counter at the start *)
+Theorem C18_sends_in_number_order : forall c ops s, Forall auto_only ops ->
+  StronglySorted Z.le (map e_num (run_sends c s ops)) /\ Forall (fun n => s_seq s < n) (map e_num (run_sends c s ops)).
+Proof. exact run_sends_sorted. Qed.
+Print Assumptions C18_sends_in_number_order.
+
+(* ===================================================================== round 5: rendering *)
+(* "rendering an event to text never raises": lib/LogFmt.v models format_message -- key normalisation, the selection of
+   format string and arguments with its asserts and conversions, the % operator (either outcome), the fallback with
+   repr() of a non-text message and its own guard -- over event dicts whose keys are text, utf-8 bytes, undecodable bytes
+   or anything else and whose values are text, bytes (decodable or not), argument sequences, or objects whose repr works
+   or raises.  FULL STRENGTH on this tree: no hypothesis on the dict.  Rests on the translated fact
+   fmt_keys_outside_try = false (8594ad6 moved `e = ensure_dict_str_keys(e)` inside the try) and on the handler classes. *)
+Theorem C18_format_total : forall pct e, exists o, format_message pct e = Ok o.
+Proof. exact format_total_all. Qed.
+Print Assumptions C18_format_total.
+
+(* independent of where that statement sits: total on every dict whose keys are text or utf-8 bytes *)
+Theorem C18_format_total_textlike_keys : forall pct e,
+  fmt_keys_outside_try = false \/ keys_textlike e -> exists o, format_message pct e = Ok o.
+Proof. exact format_total. Qed.
+Print Assumptions C18_format_total_textlike_keys.
+
+(* the repaired defect as a regression statement: were the normalisation outside the try again, these two dicts would
+   escape (TypeError / UnicodeDecodeError).  They are fixed witnesses of the oracle (corpus/C18/format_nontext_key.json,
+   signature oracle/format-raises-nontext-key). *)
+Theorem C18_format_unguarded_keys_escape : fmt_keys_outside_try = true ->
+  (forall pct, format_message pct [(FKOther, FVText 10)] = Raise ETypeError) /\
+  (forall pct, format_message pct [(FKBytes 11 false, FVText 10); (FKText N_message, FVText 12)] = Raise EValueError).
+Proof. exact format_unguarded_keys_escape. Qed.
+Print Assumptions C18_format_unguarded_keys_escape.
+
+(* ===================================================================== round 5: re-entrant calls *)
+(* "... returns strictly increasing event numbers, whatever objects are passed" when a call of msg() causes further
+   calls of msg() while it runs (an observer that logs, a __str__ / __repr__ that logs): lib/LogReent.v, call trees of any
+   shape.  msg() takes its number from the translated Count.next before anything else, so the numbers returned, listed in
+   the order in which the calls START, are exactly seq+1, seq+2, ...: strictly increasing, every call made from inside
+   a call returns more than that call, and whatever is called afterwards returns more than the whole tree. *)
+Theorem C18_reentrant_numbers_exact : forall c seq, all_auto c = true ->
+  rcall seq c = (seq + Z.of_nat (size c), seq + 1, zrange (seq + 1) (size c)).
+Proof. exact reentrant_numbers_exact. Qed.
+Print Assumptions C18_reentrant_numbers_exact.
+
+Theorem C18_reentrant_numbers_increase : forall c seq, all_auto c = true ->
+  let '(seq', ret, rets) := rcall seq c in
+  StronglySorted Z.lt rets /\ Forall (fun n => seq < n <= seq') rets /\ ret = seq + 1 /\ hd 0 rets = ret.
+Proof. exact reentrant_numbers_increase. Qed.
+Print Assumptions C18_reentrant_numbers_increase.
